@@ -14,6 +14,14 @@ ASSUMPTIONS = [
 ]
 
 PROPS = {
+    'C03': dict(level='proof', A=['profile'], B=['profile'], proj='barrier', B4='barrier'),
     'C04': dict(level='proof', A=['profile'], B=['profile'], proj='result'),
+    'C05': dict(level='proof', A=['profile'], B=['fail'], proj='result', B4='try_abort', B4_kinds=[(True, False), (True, True)], B4_n=24),
+    'C06': dict(level='proof', A=['profile'], B=['fail'], proj='abort', B4='try_abort', B4_kinds=[(True, False), (True, True)], B4_n=24),
+    'C09': dict(level='proof', A=['profile_async'], B=[], proj=None, B4='lazy_complete', B4_n=60),
+    'C10': dict(level='proof', A=['profile'], B=['profile', 'wrap'], proj='multiset'),
+    'C11': dict(level='proof', A=['profile'], B=['caps', 'wrap'], proj='caps'),
+    'C12': dict(level='proof', A=['profile'], B=['caps'], proj='caps'),
+    'C13': dict(level='proof', A=['profile'], B=['profile', 'fail'], proj='exact'),
     'C17': dict(level='proof', A=['profile', 'bigindex'], B=[], proj=None),
 }
